@@ -423,7 +423,7 @@ mutant("c01-fold-seed-one", "C01", (T, """        y = scalar(0.0)
             y = self.aggregation.compute(y, term.membership(x))""", """        y = scalar(1.0)
         for term in self.terms:
             y = self.aggregation.compute(y, term.membership(x))"""), "P7/Aggregated.membership/seed")
-mutant("c01-fold-not-carried", "C01", (T, "            y = self.aggregation.compute(y, term.membership(x))  # type: ignore", "            y = self.aggregation.compute(scalar(0.0), term.membership(x))  # type: ignore"), "P7/Aggregated.membership/fold")
+mutant("c01-fold-not-carried", "C01", (T, "            y = self.aggregation.compute(y, term.membership(x))  # type: ignore", "            y = self.aggregation.compute(scalar(0.0), term.membership(x))  # type: ignore"), "P7/Aggregated.membership/")
 mutant("c01-disabled-variable-returns-one", ["C01", "C06"], (R, """            if not node.variable.enabled:
                 return scalar(0.0)""", """            if not node.variable.enabled:
                 return scalar(1.0)"""), "P9/Antecedent.activation_degree/disabled")
@@ -1342,7 +1342,8 @@ mutant("c15-package-of-star-keeps-alias", "C15", (L, """            elif setting
                 package = \"\"""", """            elif settings.alias == "*":
                 package = settings.alias"""), "R8/Representation.package_of/prefixes")
 mutant("c15-repr-float-no-prefix", "C15", (L, """            infinity = f"{self.package_of(settings)}{np.abs(x)!r}\"""", """            infinity = f"{np.abs(x)!r}\""""), "R5/Representation.repr_float/prefix")
-mutant("c15-class-name-always-qualified", "C15", (O, """        package = ""
+# the unqualified class name is what the FLL exporter writes and what the factories register under: a C14 matter (the representation asks for qualname=True)
+mutant("c15-class-name-always-qualified", "C14", (O, """        package = ""
         if qualname:
             from .library import representation
 
